@@ -194,6 +194,9 @@ func legalName(r *rand.Rand, maxLen int) []byte {
 				b[i] = '_'
 			}
 		}
+		if r.Intn(12) == 0 {
+			b[0] = '\n' // a leading line feed: legal in a file name, awkward for YAML
+		}
 		s := string(b)
 		if s == "." || s == ".." {
 			continue
@@ -214,9 +217,10 @@ func substitute(steps []map[string]any, r *rand.Rand) []map[string]any {
 	}
 	longHead := legalName(r, 72)
 	edgeLogin := r.Intn(5) == 0
+	overLogin := r.Intn(4) == 0
 	m := func(role string, v any) []int {
 		b := bytesOf(v)
-		if len(b) == 0 || (role == "pw" && string(b) == "\xff") {
+		if len(b) == 0 || (role == "pw" && string(b) == "\xff") || (role == "login" && len(b) > 250) {
 			return sim.Ints(b)
 		}
 		if n, ok := maps[role][string(b)]; ok {
@@ -234,6 +238,15 @@ func substitute(steps []map[string]any, r *rand.Rand) []map[string]any {
 				edgeLogin = false
 				n = legalName(r, 200)
 				for want := 247 + r.Intn(4); len(n) < want; {
+					n = append(n, byte('a'+r.Intn(26)))
+				}
+			}
+			if role == "login" && !edgeLogin && overLogin && len(b) < 200 {
+				// one script in four: a (second) login is itself a legal file name but too long to be an account:
+				// login + ".yaml" = 256..260 bytes
+				overLogin = false
+				n = legalName(r, 200)
+				for want := 251 + r.Intn(5); len(n) < want; {
 					n = append(n, byte('a'+r.Intn(26)))
 				}
 			}
